@@ -712,6 +712,11 @@ where
     where
         V: de::Visitor<'de>,
     {
+        // The marker of a `SymbolRef` applies to this value only
+        if let Some(NonNativeType::SymbolRef) = self.non_native_type {
+            self.non_native_type = None;
+        }
+
         let len = match self
             .get_elem_code_or_read_format_code()
             .ok_or_else(|| Error::unexpected_eof("Expecting format code"))??
@@ -736,7 +741,11 @@ where
         // visitor.visit_byte_buf(self.parse_byte_buf()?)
         match self.non_native_type {
             None => visitor.visit_byte_buf(self.parse_binary()?),
-            Some(NonNativeType::LazyValue) => self.reader.forward_read_byte_buf(visitor),
+            Some(NonNativeType::LazyValue) => {
+                // The marker applies to this value only
+                self.non_native_type = None;
+                self.reader.forward_read_byte_buf(visitor)
+            }
             _ => unreachable!("Only Binary and LazyValue are expected in deserialize_byte_buf"),
         }
     }
